@@ -224,6 +224,34 @@ func runC13(args []string) error {
 					st = "SQuery (QList " + cBytes([]byte(d)) + ")"
 					ob = oStrs(vs.([]string))
 					hq.Inc("list")
+					// oracle: a listing names every stored key below the path (by its first component) and nothing that
+					// is not stored
+					// (not for the root: List("/") names only the keys directly below it, a quirk of pathToTerms the model
+					// reproduces; nothing calls it)
+					if dd := d; strings.HasPrefix(d, "/") && d != "/" {
+						got := map[string]bool{}
+						for _, v := range vs.([]string) {
+							got[v] = true
+						}
+						want := map[string]bool{}
+						for k := range ref {
+							if strings.HasPrefix(k, dd+"/") && len(k) > len(dd)+1 {
+								want[strings.Split(k[len(dd)+1:], "/")[0]] = true
+							}
+						}
+						for w := range want {
+							if !got[w] {
+								sum.violate(c, "a listing drops a stored key below the listed path", map[string]any{"log": fmt.Sprint(log), "steps": append(append([]string{}, descr...), st)}, fmt.Sprintf("List(%q) = %v lacks %q", d, vs, w))
+							}
+						}
+						if _, self := ref[d]; !self {
+							for g := range got {
+								if !want[g] {
+									sum.violate(c, "a listing names something that is not stored below the listed path", map[string]any{"log": fmt.Sprint(log), "steps": append(append([]string{}, descr...), st)}, fmt.Sprintf("List(%q) = %v", d, vs))
+								}
+							}
+						}
+					}
 				default:
 					d := pick(r, dirs)
 					vs, _ := f.Lookup(kv.QueryListDir{Path: d})
